@@ -21,7 +21,8 @@ Transports == {"sasl", "basic", "json", "ldap", "cli"}
 Users == {"existing", "existing-with-at", "nonexistent", "other-case", "padded-space", "trailing-newline", "empty",
           "len-249", "len-256", "len-257", "leading-dash"}
 Pws   == {"right", "wrong", "empty", "right-plus-space", "right-minus-last", "case-flipped", "with-colons", "json-escapes-nonbmp",
-          "len-255", "len-256", "len-257", "all-byte-values", "leading-dash", "other-users-password"}
+          "len-255", "len-256", "len-257", "all-byte-values", "leading-dash", "other-users-password",
+          "right-nul-tail"}          \* the right password followed by a NUL byte and more bytes (a C string would end at the NUL)
 Cases == [transport : Transports, user : Users, pw : Pws]
 
 NameRule(x) == IF x.transport = "ldap" THEN "cut-at-@" ELSE "as-is"
@@ -34,6 +35,7 @@ Outside(x) ==
     \/ (x.transport = "basic" /\ x.user = "trailing-newline")                       \* not expressible in a header
     \/ (x.transport = "cli" /\ x.pw = "all-byte-values")                            \* NUL cannot be passed in argv
     \/ (x.transport = "ldap" /\ x.pw = "all-byte-values")
+    \/ (x.transport = "cli" /\ x.pw = "right-nul-tail")
 
 Init == /\ f \in Cases
         /\ IF EmitEdges THEN PrintT(ToJson([case |-> f, name |-> NameRule(f), limits |-> IF Outside(f) THEN "outside" ELSE "inside"])) ELSE TRUE
